@@ -91,6 +91,10 @@ def tlv_roundtrip(c, n):
     enc = c.call(_asn1._pack_asn1, cls, cons, num, content)
     ref = refs.der_tlv(cls, cons, num, content)
     c.check(enc == ref, "tlv: minimal DER")
+    # encoding is a function of its arguments: the same value packed again (and with the other class / constructed bit in between) gives the same octets
+    other = c.call(_asn1._pack_asn1, 3 - cls, not cons if not c.symbolic else V.mkbool(V.z3.Not(cons.t)), num, content)
+    again = c.call(_asn1._pack_asn1, cls, cons, num, content)
+    c.check(all_of([again == ref, other == refs.der_tlv(3 - cls, (not cons) if not c.symbolic else V.mkbool(V.z3.Not(cons.t)), num, content)]), "tlv: packing twice gives the same octets")
     hdr = c.call(_asn1._read_asn1_header, enc)
     c.check(all_of([hdr.tag.tag_class == cls, hdr.tag.tag_number == num,
                     (hdr.tag.is_constructed == cons) if not c.symbolic else V.mkbool(V.tobool(hdr.tag.is_constructed) == cons.t),
